@@ -191,6 +191,9 @@ func (l Label) wire(n int) (data []byte, binary bool) {
 		if l.Big && l.Doc == "query" {
 			q, extra = fmt.Sprintf("{big(n:%d)}", n), nil
 		}
+		if l.Big && l.Doc == "sub" {
+			q, extra = fmt.Sprintf("subscription{sb(n:%d)}", n), nil
+		}
 		gq, gs := "qg", "sg"
 		if l.GateCtx {
 			gq, gs = "qc", "sc"
@@ -301,10 +304,14 @@ func parseServerFrame(proto string, p []byte) SFrame {
 			if json.Unmarshal(v, &n) == nil && string(v) != "null" {
 				n := n
 				resp.Data[k] = &n
-			} else if k == "big" && json.Unmarshal(v, &str) == nil {
+			} else if (k == "big" || k == "sb") && json.Unmarshal(v, &str) == nil {
 				if _, err := fmt.Sscanf(str, "%d:", &n); err == nil {
 					n := n
-					resp.Data["q"] = &n // a big answer is the result of a query
+					if k == "big" {
+						resp.Data["q"] = &n // a big answer is the result of a query
+					} else {
+						resp.Data["s"] = &n // a big event of a subscription
+					}
 				}
 			} else {
 				resp.Data[k] = nil
